@@ -85,41 +85,17 @@ theorem runBatchT_agg_spec {O : Oracles} {qy : Query} {q : AggStmt} (hq : qy.stm
       simp only [afterLines, hasFailed, hfin', ← hro]
       simp
 
-/-- the specification's answer for a batch run depends on the multiset of all input lines only (under `PermSafe`) -/
-theorem specBatch_perm {O : Oracles} {qy : Query} {q : AggStmt} (hj : qy.join = none) (joined : List FileLine)
-    {f1 f2 : List (List FileLine)} (hp : f1.flatten.Perm f2.flatten)
-    (hsafe : ∀ keyed, keyedRows O q (envsOf qy.table f1.flatten) = some keyed → PermSafe O q keyed)
-    {ro : RunOut} (h1 : Spec.Agg.batch O qy q joined f1 = some (ro, ""))
-    (hc2 : deviationClass O q (envsOf qy.table f2.flatten) = "") :
-    Spec.Agg.batch O qy q joined f2 = some (ro, "") := by
-  unfold Spec.Agg.batch at h1 ⊢
-  simp only [hj] at h1 ⊢
-  have hany : f2.flatten.any (fun fl => !fl.readable) = f1.flatten.any (fun fl => !fl.readable) := hp.symm.any_eq
-  rw [hany]
-  split at h1
-  · simp at h1
-  · rename_i hr
-    simp only [hr, if_false, Bool.false_eq_true]
-    unfold Spec.Agg.batchOver at h1 ⊢
-    rw [← table_perm (envsOf_perm qy.table hp) hsafe, ← hp.length_eq]
-    cases ht : table O q (envsOf qy.table f1.flatten) with
-    | none => simp [ht] at h1
-    | some t =>
-      simp only [ht, Option.some.injEq, Prod.mk.injEq] at h1 ⊢
-      exact ⟨h1.1, hc2⟩
-
 /-- **the traced batch run ignores the order of the input lines** (and how they are spread over files): for an
 aggregate statement without join and two inputs whose lines are permutations of each other — same `RunOut`, same
-print call — whenever the specification answers for the first with an empty deviation class, `PermSafe` holds for its
-admitted rows, and the second is outside D10/D15 as well -/
+print call — whenever the specification answers for the first with an empty deviation class and `PermSafe` holds for its
+admitted rows (the second input is then outside D10 / D15 as well: `specBatch_perm`, `deviationClass_perm`) -/
 theorem runBatchT_perm_invariant {O : Oracles} {qy : Query} {q : AggStmt} (hq : qy.stmt = .aggregate q) (hwf : StmtWF q)
     (hj : qy.join = none) (joined : List FileLine) (joined' : Option (List FileLine)) {f1 f2 : List (List FileLine)}
     (hp : f1.flatten.Perm f2.flatten)
     (hsafe : ∀ keyed, keyedRows O q (envsOf qy.table f1.flatten) = some keyed → PermSafe O q keyed)
-    {ro : RunOut} (h1 : Spec.Agg.batch O qy q joined f1 = some (ro, ""))
-    (hc2 : deviationClass O q (envsOf qy.table f2.flatten) = "") :
+    {ro : RunOut} (h1 : Spec.Agg.batch O qy q joined f1 = some (ro, "")) :
     runBatchT O qy joined' f1 = runBatchT O qy joined' f2 := by
-  have h2 := specBatch_perm hj joined hp hsafe h1 hc2
+  have h2 := specBatch_perm hj joined hp hsafe h1
   obtain ⟨t1, ht1, e1⟩ := runBatchT_agg_spec hq hwf hj joined joined' f1 h1
   obtain ⟨t2, ht2, e2⟩ := runBatchT_agg_spec hq hwf hj joined joined' f2 h2
   have : t1 = t2 := by
